@@ -7,6 +7,7 @@ import PasfmtModel.Proofs.LexBoundaries
 import PasfmtModel.Proofs.MlsSim
 import PasfmtModel.Proofs.CaseConfined
 import PasfmtModel.Proofs.WrapStageProps
+import PasfmtModel.Proofs.PipelineFullProps
 
 namespace Pasfmt.C01
 
@@ -69,6 +70,26 @@ theorem C01_format_exact (cfg : Config) (O : Oracles) (s : Bytes) (hv : ValidUtf
 theorem C01_format_any_search (cfg : Config) (O : Oracles) (solve : Nat → Nat → Option Sol) (s : Bytes) (hv : ValidUtf8 s) :
     ∃ out, format cfg (O.withSolver solve) s = some out ∧ foldStrip out = foldStrip s :=
   C01_format cfg (O.withSolver solve) s hv (wrapFrame_of_solver O solve)
+
+/-- **C01 for the closed model of the whole formatter** (`formatFull`: scanner, parser with its control flow,
+    consolidators, ignorers, token rules, the wrapper stage with the search inside, reconstructor - no component is a
+    parameter except `char::is_alphanumeric` on non-ASCII characters; compared byte for byte with
+    `make_formatter().format()` on every case of the `full` stream).  Whenever the model answers, its output has the
+    input's non-blank characters, in order, up to ASCII case. -/
+theorem C01_format_full (cfg : Config) (alnum : Bytes → Bool) (s : Bytes) (hv : ValidUtf8 s) (out : Bytes)
+    (h : formatFull cfg alnum s = some out) : foldStrip out = foldStrip s := by
+  unfold formatFull at h
+  split at h
+  · simp at h
+  · rename_i raw hl
+    obtain ⟨po, _, hft⟩ := formatTokensFull_eq cfg alnum raw out h
+    obtain ⟨out', ho, hfold⟩ := C01_format cfg (fullOracles alnum po) s hv (wrapFrame_full alnum po)
+    have : out' = out := by
+      unfold format at ho
+      rw [hl] at ho
+      simp at ho
+      rw [← ho, hft]
+    rw [← this]; exact hfold
 
 /-- the reconstructor emits every token's content exactly once, in order, separated by blank-only
     gaps — for **every** assignment of whitespace counters and every ignored-set -/
